@@ -212,10 +212,21 @@ class Findings:
             self.fixed += [f for f in data.get("fixed", []) if f["property"] == pid]
         self.hit = {}
 
+    def match(self, sig):
+        """the listed signature that covers sig: exact, or a listed pattern with * wildcards (fnmatch)"""
+        if sig in self.open:
+            return sig
+        import fnmatch
+        for pat in self.open:
+            if "*" in pat and fnmatch.fnmatchcase(sig, pat):
+                return pat
+        return None
+
     def known(self, sig):
-        return sig in self.open
+        return self.match(sig) is not None
 
     def record(self, sig, example=None):
+        sig = self.match(sig) or sig
         self.hit.setdefault(sig, {"count": 0, "example": example})
         self.hit[sig]["count"] += 1
 
